@@ -48,6 +48,13 @@ MARKERS = ["\\\");ZQX(1)#", "\\\\\");ZQX(1)#", "\");ZQX(1)#", "\\');ZQX(1)#", "a
            "ZQX[0]", "ZQX[ZQX]", "a[ZQX]", "ZQX[ZQX][ZQX]", "ZQX[ZQX]^ZQX", "[ZQX]", "ZQX.ZQX", "ZQX=1;ZQX", "ZQX)(ZQX", "ZQX:ZQX", "ZQX|ZQX", "1ZQX", "ZQX`ZQX", "ZQX;ZQX", "ZQX\rZQX", "ZQX\\\nZQX", "ZQX'''ZQX", 'ZQX"""ZQX',
            "ZQX\x00", "ZQX\u2028ZQX", "ZQX\x0cZQX", "ZQX#ZQX", "ZQX\\\\", "ZQX\\\"", "{ZQX}", "ZQX%sZQX", "ZQXé", "ＺＱＸ", "ZQX\N{KELVIN SIGN}", "ZQX²"]
 
+# backslash runs of every parity before every character the escaping treats specially (an escaping that
+# looks a fixed number of characters back gets the parity of a longer run wrong) ...
+MARKERS += [pre + "\\" * k + sp + ");ZQX(1)#" for k in range(0, 8) for sp in ('"', "\n", "\r", "`", "'") for pre in ("", "a")]
+# ... and length extremes: anything that counts (a `count=` argument, a buffer, a recursion) only shows beyond it
+MARKERS += [junk * n + "ZQX if 0 else ZQX" for junk in ("-", ".", " ", "é") for n in (257, 1025)]
+MARKERS += ["\\" * n + '");ZQX(1)#' for n in (257, 258)] + ['"' * 300 + ");ZQX(1)#", "\n" * 300 + "ZQX"]
+
 # longer payloads over the alphabet that both tiers try at every position (a closed
 # subscription needs three characters)
 SEEDS = ["[Z]", "a[Z]", "Z[a]", "a[a]", "[a][Z]", "a[Z]^Z", "Z[:]", "a(Z)", "a()", "(Z)", "a;Z", "a:Z", "Z`Z`", "a\\Z", "a]Z[",
@@ -452,7 +459,9 @@ def run(env, with_model=True):
     # ---- (1) text correspondence (code-page characters only: the text model is exact there) -----
     cpset = set(cp)
     corr = [s for _, _, s in pos] + var_single + var_pair_corr + raw + rnd + gen + [s for _, _, s in marked if set(s) <= cpset]
-    corr = [s for s in dict.fromkeys(corr) if set(s) <= cpset]
+    # sources longer than 320 characters stay with the oracle (a Coq list literal of that size per case is too heavy)
+    corr = [s for s in dict.fromkeys(corr) if set(s) <= cpset and len(s) <= 320]
+    escape_runs = set(s for _, m, s in marked if m.endswith(");ZQX(1)#") and len(s) <= 60 and set(s) <= cpset)
     if not env.thorough:
         # quick tier: the Coq-side comparison of long outputs is the expensive part; positions
         # whose output is a whole function / lambda / list get their top payload length
@@ -467,7 +476,7 @@ def run(env, with_model=True):
                                              "raw_top_length": f"{min(len(drop_raw), 1500)} of {len(drop_raw)}", "sources_compared": len(corr)})
     if not env.thorough and len(corr) > 6000:
         # quick tier budget: the seeds and the single-character variable forms always, the rest sampled
-        must = set(SEEDS) | set(var_single)
+        must = set(SEEDS) | set(var_single) | escape_runs
         rest = [s for s in corr if s not in must]
         corr = [s for s in corr if s in must] + env.rng.sample(rest, max(0, 6000 - len(must & set(corr))))
         env.note("correspondence_quick_sample", {"sources_compared": len(corr)})
